@@ -315,7 +315,8 @@ def run_harness(h, symtab, mangled, clibs, workdir):
     for pr in p["props"]:
         if pr["class"] == "cover":
             # CBMC encodes cover(c) as assert(!c): FAILURE == satisfiable == witness exists
-            covers[pr["desc"]] = (pr["status"] == "FAILURE")
+            # several cover sites may share one description (e.g. one per fallible step): any of them suffices
+            covers[pr["desc"]] = covers.get(pr["desc"], False) or (pr["status"] == "FAILURE")
             continue
         if pr["status"] == "SUCCESS":
             continue
